@@ -13,7 +13,7 @@ pub fn meta() -> Meta {
     Meta {
         id: "C12",
         level: "exploration",
-        rule: "paired FASTQ read sets through the real SkaDict::new (in-process) against a brute-force count model: genome g of k+2 letters and a variant g' differing in the middle base of the central window, k in {5,9,31,33} (thorough: + 7, 63), both strand modes. Family A (counts): min-count c=1..6 x every multiplicity pair (a,a') in {0,c-1,c,c+1}^2 for the two central k-mers x every split of each multiplicity between file 1 (forward) and file 2 (reverse complement). Family B (quality): c in 1..3, three quality rules x min-qual in {0,1,20,40} x one designated low-quality base (middle, middle-1, first, last of a k-long read; positions 0, h, h+1, k+1 of a (k+2)-long read) with quality in {Q-1,Q,Q+1} on exactly one of the c copies. Family C: N at every position of the (k+2)-long read, and of a read of 2k+4 letters (k or more valid bases behind the N; also a low-quality base there under the strict rule). Family D: the same through `ska build -f` option parsing (one of the two files with CRLF line ends in two of the four configurations), and a single FASTQ file given as positional argument or as a two-field list line. Family P (k in {5,7,31,33}; thorough + 9, 15, 63): reads holding a k-mer whose arms are reverse complements of each other (X m rc(X), each m; also homopolymer arms A^h m A^h, A^h m T^h, G^h m G^h; bare, with flanks), c=1..3, totals c-1/c/c+1 split between the strands and the files in every way. Family E (k in {5,33}; thorough + 7, 31, 63): every multiset of up to three reads drawn from all substrings of length k..k+3, both orientations, of a (k+3)-letter genome and of its one-substitution variant (quick: triples from the genome only), all in file 1 or alternating between the files, c=1..3 (the same k-mer met as first window of one read and as rolled window of another, on either strand); and every pair of such reads with one base of quality Q-1 or Q at every position of the first (k<=7; ends and window middles otherwise; quick: k=5 only), middle and strict rule, c=1..2. One larger data set (~2*10^4 distinct k-mers plus singleton error k-mers) bounds the share of below-threshold k-mers that enter. Non-trivial = the model's dictionary is non-empty or a k-mer sits exactly at a threshold.".into(),
+        rule: "paired FASTQ read sets through the real SkaDict::new (in-process) against a brute-force count model: genome g of k+2 letters and a variant g' differing in the middle base of the central window, k in {5,9,31,33} (thorough: + 7, 63), both strand modes. Family A (counts): min-count c=1..6 x every multiplicity pair (a,a') in {0,c-1,c,c+1}^2 for the two central k-mers x every split of each multiplicity between file 1 (forward) and file 2 (reverse complement). Family B (quality): c in 1..3, three quality rules x min-qual in {0,1,20,40} x one designated low-quality base (middle, middle-1, first, last of a k-long read; positions 0, h, h+1, k+1 of a (k+2)-long read) with quality in {Q-1,Q,Q+1} on exactly one of the c copies. Family C: N at every position of the (k+2)-long read, and of a read of 2k+4 letters (k or more valid bases behind the N; also a low-quality base there under the strict rule). Family D: the same through `ska build -f` option parsing (one of the two files with CRLF line ends in two of the four configurations), and a single FASTQ file given as positional argument or as a two-field list line. Family P (k in {5,7,31,33}; thorough + 9, 15, 63): reads holding a k-mer whose arms are reverse complements of each other (X m rc(X), each m; also homopolymer arms A^h m A^h, A^h m T^h, G^h m G^h; bare, with flanks), c=1..3, totals c-1/c/c+1 split between the strands and the files in every way. Family E (k in {5,33}; thorough + 7, 31, 63): every multiset of up to three reads drawn from all substrings of length k..k+3, both orientations, of a (k+3)-letter genome and of its one-substitution variant (quick: triples from the genome only), all in file 1 or alternating between the files, c=1..3 (the same k-mer met as first window of one read and as rolled window of another, on either strand); and every pair of such reads with one base of quality Q-1 or Q at every position of the first (k<=7; ends and window middles otherwise; quick: k=5 only), middle and strict rule, c=1..2. One larger data set (~2*10^4 distinct k-mers plus singleton error k-mers) bounds the share of below-threshold k-mers that enter; a 400 kb genome given three times as reads at min-count 3 must give exactly the FASTA builder's dictionary of the genome (4*10^5 distinct k-mers, none lost). Non-trivial = the model's dictionary is non-empty or a k-mer sits exactly at a threshold.".into(),
         assumptions: vec!["an extra entry would only be acceptable as a counting-filter collision; on these inputs none is expected and any extra is reported".into(), "a sample in which nothing reaches the threshold may be refused".into()],
         exhaustive_when_uncapped: true,
     }
@@ -560,6 +560,55 @@ pub fn run(ctx: &Ctx, rep: &mut Report) {
             Err(e) => rep.violate("large set: refused".into(), format!("larger data set refused: {e}"), json!({"large": true})),
         }
         rep.corner("large_set");
+    }
+    // a large sample: a 400 kb random genome given three times as reads (two copies in file 1, its reverse complement
+    // in file 2), min-count 3: every k-mer reaches the count, so the result must be the dictionary that the FASTA
+    // builder gives for the genome — none lost. (About 4e5 distinct k-mers: enough for 64-bit hashes folded to 32
+    // bits to collide.)
+    idx += 1;
+    if ctx.mine(idx) {
+        let k = 31;
+        let mut x = crate::enumerate::splitmix(ctx.seed.wrapping_add(1212));
+        let genome: Vec<u8> = (0..400_000)
+            .map(|_| {
+                x = crate::enumerate::splitmix(x);
+                b"ACGT"[(x >> 33) as usize & 3]
+            })
+            .collect();
+        let fa = scratch::write("c12_huge.fa", &scratch::fasta(&[genome.clone()]));
+        let q = vec![b'I'; genome.len()];
+        let mut f1 = Vec::new();
+        for name in ["a", "b"] {
+            f1.extend_from_slice(format!("@{name}\n").as_bytes());
+            f1.extend_from_slice(&genome);
+            f1.extend_from_slice(b"\n+\n");
+            f1.extend_from_slice(&q);
+            f1.push(b'\n');
+        }
+        let mut f2 = b"@c\n".to_vec();
+        f2.extend_from_slice(&rc_str(&genome));
+        f2.extend_from_slice(b"\n+\n");
+        f2.extend_from_slice(&q);
+        f2.push(b'\n');
+        let p1 = scratch::write("c12_huge1.fastq", &f1);
+        let p2 = scratch::write("c12_huge2.fastq", &f2);
+        rep.evaluations += 1;
+        rep.nontrivial += 1;
+        rep.corner("large_sample_400kb");
+        match (real::build_dict::<u64>(&fa, k, true), real::build_dict_reads::<u64>(&p1, &p2, k, true, 3, 20, QRule::Strict)) {
+            (Ok(want), Ok(got)) => {
+                let lost = want.iter().filter(|(a, b)| got.get(*a) != Some(*b)).count();
+                let extra = got.keys().filter(|a| !want.contains_key(*a)).count();
+                rep.extra.insert("max_huge_set_distinct_kmers".into(), json!(want.len()));
+                if lost > 0 || extra > 0 {
+                    rep.violate("huge set".into(), format!("400 kb genome given three times, min-count 3: {lost} of {} k-mers that reach the count are lost or differ, {extra} others entered", want.len()), json!({"huge": true}));
+                }
+            }
+            (a, b) => rep.violate("huge set: refused".into(), format!("400 kb genome: FASTA build {:?}, read build {:?}", a.err(), b.err()), json!({"huge": true})),
+        }
+        let _ = std::fs::remove_file(&p1);
+        let _ = std::fs::remove_file(&p2);
+        let _ = std::fs::remove_file(&fa);
     }
     rep.sample(json!({"family": "B", "k": 9, "min_count": 2, "min_qual": 20, "rule": "middle", "file1": [["<central 9-mer>", "quality 20 at the middle base, 25 elsewhere"]], "file2": [["<reverse complement>", "25 everywhere"]], "expected": "k-mer present (quality equal to the threshold passes)"}));
 }
